@@ -6,6 +6,10 @@
 // sync: import "sync" -> "verif/shim/vsync" (same local name)
 // go:   `go f(x)`     -> vsched.Go(func(){ f(x) })
 // time: time.AfterFunc/Now/Since/Sleep/Until and *time.Timer -> verif/shim/vtime
+// syncb: import "sync" -> "verif/shim/vsyncb" (same local name): real sync except a
+//       WaitGroup without synctest bubble association (Go 1.25.0 reports a spurious
+//       "WaitGroup.Add called from multiple synctest bubbles" on recycled addresses);
+//       for Engine A harnesses that run many bubbles. Not combinable with "sync".
 // os:   import "os"   -> "verif/shim/vfs" (same local name): in-memory file system
 //       that logs every operation and supports crash-at-operation-k and torn
 //       writes; paths outside a mounted prefix go to the real os package
@@ -99,6 +103,15 @@ func rewriteFile(src, dst string, want map[string]bool, hits map[string]int) (bo
 				im.Name = ast.NewIdent(name)
 				im.Path.Value = strconv.Quote("verif/shim/vsync")
 				hits["sync"]++
+				changed = true
+			} else if want["syncb"] {
+				name := "sync"
+				if im.Name != nil {
+					name = im.Name.Name
+				}
+				im.Name = ast.NewIdent(name)
+				im.Path.Value = strconv.Quote("verif/shim/vsyncb")
+				hits["syncb"]++
 				changed = true
 			}
 		case "os":
